@@ -105,6 +105,8 @@ type HProg struct {
 	Stdin []byte
 	Args  []string
 	Roles []string // generator: (type/role) pairs exercised
+	// SelfContained: one module without imports (can be built with --module-linken=false)
+	SelfContained bool
 }
 
 type ExecResult struct {
